@@ -90,6 +90,41 @@ m("K03", "C11", CW, "        if sum(self._label_counts) == 0:\n            retur
 m("K04", "C12", CW, "        is_lbld = is_labeled(y, missing_label=self.missing_label_)", "        is_lbld = np.ones(len(y), dtype=bool) if sample_weight is None and False else is_labeled(y, missing_label=self.missing_label_)", note="control: equivalent")
 
 
+# ---- wrappers / multi-annotator: C20 C07
+PW = "skactiveml/pool/_wrapper.py"
+MW = "skactiveml/pool/multiannotator/_wrapper.py"
+m("W01", "C20", PW, "                new_utilities[:, candidate_indices] = -np.inf\n                new_utilities[:, new_candidates] = utilities[:, new_candidates]",
+  "                new_utilities[:, candidate_indices] = np.nan\n                new_utilities[:, new_candidates] = utilities[:, new_candidates]",
+  note="SubSamplingWrapper reports NaN instead of -inf for candidates outside the sub-sample")
+m("W02", "C20", PW, "size=max_candidates, replace=False", "size=max_candidates, replace=True", occ=1,
+  note="sub-sample drawn with replacement (fewer distinct candidates than documented)")
+m("W03", "C07,C20", MW, "            if annotator_ps >= n_as_annotators[sample_index]:", "            if annotator_ps > n_as_annotators[sample_index]:",
+  note="one annotator too many per sample")
+m("W04", "C07", MW, "        annotator_utilities[:, ~A] = np.nan", "        annotator_utilities[:, ~A] = -np.inf",
+  note="unavailable annotators get -inf instead of NaN")
+m("W05", "C20,C07", MW, "candidate_utilities, method=\"ordinal\", axis=1", "-candidate_utilities, method=\"ordinal\", axis=1",
+  note="rank transform reverses the wrapped strategy's order")
+
+# ---- regressors / index wrapper: C15 C19
+RB = "skactiveml/base.py"
+RW = "skactiveml/regressor/_wrapper.py"
+PU = "skactiveml/pool/utils.py"
+m("R01", "C15", RW, "self._label_std = np.std(y[is_lbld]) if np.sum(is_lbld) > 1 else 1", "self._label_std = np.std(y[is_lbld]) if np.sum(is_lbld) > 0 else 1",
+  note="fallback std of a single label is 0 (then reset to 1?)")
+m("R02", "C19", PU, "                self.base_idx_ = self.idx_.copy()", "                self.base_idx_ = self.idx_", occ=1,
+  note="base index array aliased")
+
+# ---- determinism / side effects: C05 C06
+US = "skactiveml/pool/_uncertainty_sampling.py"
+RS = "skactiveml/pool/_random_sampling.py"
+m("D01", "C05", US, "                clf = clone(clf).fit(X, y, sample_weight)", "                clf = clf.fit(X, y, sample_weight)", occ=1,
+  note="UncertaintySampling fits the caller's classifier (with sample weights)")
+m("D02", "C05", US, "                clf = clone(clf).fit(X, y)", "                clf = clf.fit(X, y)", occ=1,
+  note="UncertaintySampling fits the caller's classifier")
+m("D03", "C06", RS, "            self.random_state_,\n", "            None,\n", occ=1,
+  note="RandomSampling selects with an unseeded generator")
+
+
 def load_extra():
     p = os.path.join(os.path.dirname(__file__), "mutants_extra.json")
     if os.path.exists(p):
